@@ -24,7 +24,17 @@ def run_all(run):
                 run.verus_unit()
         elif u.startswith('kani:'):
             import kani_unit
-            kani_unit.run(run, u[5:])
+            import check as _check_mod2
+            _Und2 = getattr(sys.modules.get('__main__'), 'Undecided', None) or _check_mod2.Undecided
+            if len(units) > 1:
+                # same rule as for Verus: a Kani build / front-end error or timeout does not keep the remaining units from running
+                try:
+                    kani_unit.run(run, u[5:])
+                except _Und2 as e:
+                    run.deferred_undecided.append(str(e))
+                    run.notes.append('kani undecided, other units still run: ' + str(e)[:200])
+            else:
+                kani_unit.run(run, u[5:])
         elif u.startswith('enum:'):
             import enum_unit
             enum_unit.run(run, u[5:])
